@@ -268,6 +268,9 @@ class C17(core.Property):
         "mlm_run_gossip_complete_converges: quiescentB and MLM.KComplete of MLM.krun (no hypothesis on timestamps, values or "
         "schedules); ml_judge_convergence_silent: ML.schedOK; *_judge_convergence_silent: hfin (last step shows the model's "
         "stores) and, for the merging clause, hlog (the judge's reading of the log implies the model's knowledge computation)",
+        "mlt_gossip_complete_converges / mlt_quiescent_gossip_complete_converges (any peer topology adj, resolver returning one of "
+        "its inputs): ML.Coherent on the versions stamped by the run (MLT.created) and MLM.KComplete of MLT.krun; quiescence is "
+        "not used; mlt_judge_convergence_silent additionally hfin and hlog",
         "mlm_concurrent_merge_order_independent: MLM.AllConcurrent (each merged version neither dominates nor is dominated by "
         "what was merged before it); mlm_gossip_complete_converges: MLM.EvOK (ticks come from leaders, stray values are below the "
         "join of all) and MLM.Complete (every leader knows every leader)",
@@ -287,6 +290,14 @@ class C17(core.Property):
             "quiescent run with a monotone clock (zero link and store latency, all stamps equal) whose leaders end on 9 | 8 | 8; "
             "the same tie arises on the real code at simulated times >= 2^23 s, where Instant.to_seconds() no longer resolves "
             "nanoseconds (fixes/C17-multileader-causal-timestamp.*)",
+        "HappyModel.C17.mlt_quiescent_gossip_complete_converges": "full at run level for every peer topology (mesh, star, line, any adj, "
+            "symmetric or not) and every action list: complete knowledge after the last write/Replicate handler step => all leaders "
+            "hold the same version and value (composition of MLT.run_all [TInv, AuxInv, SubInv], MLT.krun_split and "
+            "MLT.phase2_converges). Carried as a hypothesis: ML.Coherent of the stamped versions — for the mesh model ML it is derived "
+            "from positive latency (ml_coherent_of_positive_latency); that derivation (MLClock/MLSched) is not ported to MLT. Merging "
+            "resolvers off the mesh: no theorem and no judged clause (the merge is not associative across partial views). The "
+            "judge-reading hypotheses hfin / hlog of the *_judge_convergence_silent theorems remain hypotheses: the decimal print/parse "
+            "round trip (Nat.repr / String.splitOn / String.toNat?) is not cheap in core Lean and was not attempted",
         "HappyModel.C17.mlm_judge_convergence_silent": "the run-level theorem is full: mlm_run_gossip_complete_converges — every MLM "
             "action list that is quiescent and whose anti-entropy requests after the last write/Replicate handler step make the "
             "knowledge complete (MLM.krun / KComplete) ends with all stores equal, no hypothesis on timestamps (composition of "
@@ -898,6 +909,9 @@ THEOREMS = [
     "HappyModel.C17.ml_dominates_asymm",
     "HappyModel.C17.ml_dominates_trans",
     "HappyModel.C17.mlt_disjoint_clocks_go_to_resolver",
+    "HappyModel.C17.mlt_gossip_complete_converges",
+    "HappyModel.C17.mlt_quiescent_gossip_complete_converges",
+    "HappyModel.C17.mlt_judge_convergence_silent",
 ]
 C17.theorems = THEOREMS
 PROPERTY = C17()
